@@ -602,8 +602,8 @@ fn exec_op_inner(h: &mut Hist, s: &mut Sys, op: Op, step: usize, want_fresh: Opt
         Op::ShutC(c) => {
             // forced by the broker handle
             h.pending = format!("SHUTC {}", c);
-            if s.replay && !s.alive(c) {
-                return Err(format!("SHUTC {c}: not a live connection"));
+            if s.replay && c >= s.w.chandles.len() {
+                return Err(format!("SHUTC {c}: not a connection"));
             }
             let hd = s.w.chandles[c].borrow().clone();
             if let Some(hd) = hd {
@@ -708,6 +708,13 @@ fn exec_op_inner(h: &mut Hist, s: &mut Sys, op: Op, step: usize, want_fresh: Opt
             }
             if s.tracker_ok && catch_unwind(AssertUnwindSafe(|| s.m.message(c, msg, fresh))).is_err() {
                 s.tracker_ok = false;
+            }
+            // C03 "a cookie never used before", on the implementation alone: a cookie handed out now must
+            // not have occurred anywhere in this history
+            if let Some(f) = fresh {
+                if let Some(old) = s.ids.map.get(&f) {
+                    writeln!(h.out, "MONITOR C03+C05+C10 implementation-handed-out-a-cookie-that-occurred-before(id-{})", old).unwrap();
+                }
             }
             // (replay: the cookie is bound to its recorded id before any output is formatted)
             let fid = fresh_id(&mut s.ids, fresh, want_fresh, step);
@@ -821,7 +828,11 @@ fn run_history(seed: u64, len: usize, mix: Mix, h: &mut Hist) -> Result<(), Stri
             let msg = gen_msg(&mut r, &s.p, &s.m, c, mix, &focus);
             exec_op(h, &mut s, Op::DropQueued(c, msg), step, None)?;
         } else if roll < 13 {
-            exec_op(h, &mut s, Op::ShutC(c), step, None)?;
+            // forced shutdown through the broker handle; one time in three of a connection whose task
+            // was dropped earlier and which the broker has not noticed yet (it still has to clean up)
+            let zombies: Vec<usize> = s.m.conns.iter().filter(|(_, x)| !x.alive).map(|(k, _)| *k).collect();
+            let t = if !zombies.is_empty() && r.chance(1, 3) { *r.pick(&zombies) } else { c };
+            exec_op(h, &mut s, Op::ShutC(t), step, None)?;
         } else if roll < 25 && alive.len() < 5 {
             let v = [14u32, 16, 17, 18, 19, 20][r.below(6) as usize];
             exec_op(h, &mut s, Op::New(v), step, None)?;
